@@ -48,7 +48,8 @@ def work(job):
         wit = []
         if K:
             for with_end in ([False, True] if eof else [False]):
-                w = m2m.bmc(ma, mb, L, K if not fails else max(K, 5), with_end, st, key, max_paths=job['max_paths'])
+                # a failed step is chased further from start(): small machines get up to 7 bytes
+                w = m2m.bmc(ma, mb, L, K if not fails else (7 if len(c.pre.states) <= 14 else max(K, 5)), with_end, st, key, max_paths=job['max_paths'] * (4 if fails else 1))
                 if w is None:
                     if fails:
                         st.d['inconclusive'].append(f'{key}: step relation failed and BMC exceeded its path budget')
